@@ -164,6 +164,8 @@ class DemeTree:
 
         if "hibernation" in self.config.options and self.config.options["hibernation"]:
             for _, deme in reversed(self.active_non_leaves):
+                if deme.started_at == self.metaepoch_count:
+                    continue
                 if deme in deme_seeds:
                     if deme._hibernating:
                         self._logger.debug("Deme stopped hibernating", deme=deme.id)
